@@ -42,6 +42,77 @@ CLAIMED["C06"] = dict(
          "state construction through test-internals fields.",
 )
 
+SEL_NOTE = ("Exhaustive over the enumerated vectors (admission bits x mode x guard x previous index; numerics from a "
+            "boundary grid); bits the code only uses as disjunctions are expanded by the replay, the many concrete "
+            "ways of being (not) timed out are sampled per vector from a seed. Trusted: TLC, the materialisation "
+            "of a vector as real connections through test-internals fields and the verif-hooks setters.")
+
+CLAIMED["C03"] = dict(
+    engine="tlc+selection", design_ref="4.3",
+    technique="TLA+ transcription of the decision pipeline (Selection.tla); TLC evaluates NoBlackout / "
+              "LastUsableNeverGated on every vector of the enumerated input space; every vector replayed on the real "
+              "select_connection_idx",
+    text="The selector's input space (phase x connected x timed-out x latch/pull x weak/loss-degraded x in-flight "
+         "cap x score grid, both modes, guard on/off, every previous index, 1-2 links exhaustively, 3 links in the "
+         "thorough tier) is enumerated by TLC, which checks that the specification never drops a packet while a "
+         "usable link exists; each vector is materialised as real connections (several timeout settings, stale "
+         "mirrored timeouts) and the real selector must not return None / gate the last usable link where the "
+         "specification does not.",
+    note=SEL_NOTE)
+CLAIMED["C11"] = dict(
+    engine="tlc+selection", design_ref="4.11",
+    technique="TLA+ exact-integer scoring model with tie tolerance; TLC checks stability, leave-only-if, cap precedence "
+              "on every vector; every vector replayed on the real selector (called twice and with the result fed back)",
+    text="Scores are exact integers in the specification (base x phase weight x quality x soft cap x gate penalty); "
+         "TLC checks Stable, LeaveOnlyIf and CapNeverChosenWhileUnconstrained on every enumerated vector incl. "
+         "ties, zero scores and the exact 1.10x boundary, and the real selector's answer must lie in the allowed "
+         "set, repeat on an unchanged state and stay when fed back.",
+    note=SEL_NOTE + " Quality multipliers are stamped into a fresh cache entry; the multiplier function's own range "
+         "is not decided here yet.")
+CLAIMED["C04"] = dict(
+    engine="tlc+selection", design_ref="4.4",
+    technique="TLA+ Selection.tla Routed/Eligible operators checked by TLC on the enumerated space x packet kind x "
+              "critical window; every vector replayed through the real handle_srt_packet",
+    text="For every enumerated link-state vector, packet kind (data / retransmit-flagged / control) and critical "
+         "window state TLC checks that the routed link is eligible, and the real shell entry point handle_srt_packet "
+         "is run on the materialised vector: the link whose queue received the unique copy must be registered, not "
+         "timed out and not stall-gated, and probe copies may only land on gated links.",
+    note=SEL_NOTE + " This is the per-decision half; fault histories through the shell loop are the Forwarding trace "
+         "check (when present in the evidence parts).")
+CLAIMED["C10"] = dict(
+    engine="tlc+selection", design_ref="4.10",
+    technique="TLA+ reference argmax (RefClassic) checked equal to the modelled classic routing by TLC on every "
+              "vector; every vector replayed through the real handle_srt_packet in classic mode",
+    text="TLC checks that classic mode with the guard off routes every packet kind to the lowest-index usable link "
+         "of maximal window div (in-flight + queued + 1); the real handle_srt_packet must pick exactly that link on "
+         "every materialised vector (windows carry random remainders so equal integer quotients with different "
+         "exact ratios occur).",
+    note=SEL_NOTE + " Window evolution under the classic rules is bound by the Window model (C06 engine) and the "
+         "closed-loop classic trace check when present in the evidence parts.")
+CLAIMED["C12"] = dict(
+    engine="tlc+stallguard+selection", design_ref="4.12",
+    technique="TLA+ frame property (Select leaves liveness/accounting unchanged) and GuardOffClears on the StallGuard "
+              "state graph; GuardOffIsBaseline on the Selection vectors; replay of every Select transition and "
+              "vector on the real selector with a field-by-field projection compared around the call",
+    text="Every Select transition of the timed stall-guard graph and every enumerated selector vector is executed "
+         "on the real select_connection_idx with a projection of all liveness / accounting fields of every link "
+         "taken before and after; with the guard off every flag, latch and pull must be cleared and the decision "
+         "must equal the decision on the same links without stall history.",
+    note="Trusted: the projection lists the fields named in the statement (connected, receive/send/keepalive stamps, "
+         "window, in-flight count and log size, NAK counters, proof stamp, phase, reconnect state, queue depth).")
+CLAIMED["C13"] = dict(
+    engine="tlc+stallguard", design_ref="4.13",
+    technique="TLA+ timed per-link latch/pull machine with an independent monitor of the statement; TLC on the "
+              "complete state graphs; every Select transition replayed on the real selector; recorded ms-resolution "
+              "histories validated by TLC against the monitor",
+    text="TLC explores the complete graph of the per-link stall machine (decisions, proofs with and without a byte, "
+         "inbound bytes, load and RTT changes, disconnects, resets, guard toggles, clock steps; ceiling above and "
+         "below the floor) and checks the rise / never-blind / rejoin-dwell / pull-release rules against a monitor "
+         "written from the statement; 8.7e5+ Select transitions are executed on the real selector and 20k-320k "
+         "event histories through the real RTT tracker are judged by the same monitor at ms resolution.",
+    note="The smoothed RTT is an input. One genuine defect (pull released after an RTT-widened window) is recorded in "
+         "known_findings.json and reported as KNOWN-FINDING; any other release without a byte is a violation.")
+
 PENDING = {}
 
 def main():
